@@ -8,6 +8,7 @@ import (
 	"github.com/zenon-network/go-zenon/chain/nom"
 	"github.com/zenon-network/go-zenon/common"
 	"github.com/zenon-network/go-zenon/common/types"
+	"github.com/zenon-network/go-zenon/vm/constants"
 	"github.com/zenon-network/go-zenon/vm/embedded/definition"
 )
 
@@ -289,6 +290,10 @@ func (block *AccountBlock) prefetchToken(chain chain.Chain) error {
 	store := chain.GetFrontierMomentumStore()
 	if block.TokenStandard != types.ZeroTokenStandard {
 		token, err := store.GetTokenInfoByTs(block.TokenStandard)
+		if err == constants.ErrDataNonExistent {
+			// a zero amount send can name a token standard which was never issued; there is no token info to show
+			return nil
+		}
 		if err != nil {
 			return err
 		}
